@@ -456,7 +456,15 @@ class Filterbank(ABC):
             tim_ar[ii * gulp : ii * gulp + nsamps_r] = data_2d[:, ichan]
         return TimeSeries(
             tim_ar,
-            self.header.new_header({"dm": 0, "nchans": 1, "nsamples": tim_len}),
+            self.header.new_header(
+                {
+                    "dm": 0,
+                    "nchans": 1,
+                    "nsamples": tim_len,
+                    "fch1": self.header.fch1 + ichan * self.header.foff,
+                    "tstart": self.header.mjd_after_nsamps(start),
+                },
+            ),
         )
 
     def invert_freq(
@@ -759,11 +767,13 @@ class Filterbank(ABC):
                                 "nchans": 1,
                                 "nbits": 32,
                                 "data_type": "time series",
+                                "fch1": self.header.fch1 + chan * self.header.foff,
+                                "tstart": self.header.mjd_after_nsamps(start),
                             },
                             nbits=32,
                         ),
                     )
-                    for filename in batch_files
+                    for chan, filename in zip(batch_chans, batch_files, strict=True)
                 ]
                 for nsamps_r, _, data in self.read_plan(
                     gulp=gulp,
